@@ -934,16 +934,70 @@ def check_return_deps(P, R, key, pattern=r"^(latent_|X$|X_|x_|n_acc|f_acc|data$|
 # ---------------------------------------------------------------------------------------------------------------------------
 # stand-ins for the estimator that are handed to the kernels (snapshots, worker copies)
 # ---------------------------------------------------------------------------------------------------------------------------
+class StandIn:
+    """What a builder of a stand-in for the estimator carries: `source` (the name of the object it copies: self or a parameter),
+    `carried` (attribute names, or None for "everything": copy.copy / deepcopy), `dropped` (attributes overwritten afterwards
+    with something that is not the source's value), `ctor` (constructor call for form F1)."""
+    def __init__(self, kind, source, carried=None, dropped=(), ctor=None, local=None):
+        self.kind, self.source, self.carried, self.dropped, self.ctor, self.local = kind, source, carried, set(dropped), ctor, local
+
+
+_NS_CTORS = ("SimpleNamespace", "Namespace", "dict", "AttrDict", "Bunch")
+
+
 def standin_builder(P, g):
-    """g is a method that builds and returns a new instance of its own class: (name of the local that holds it, constructor call)"""
-    if g.cls is None:
+    """g builds and returns a stand-in for an estimator (its own object for a method, its first parameter for a module function):
+      F1  t = Cls(...) [+ t.a = ...]; return t                       (same class, through the constructor)
+      F2  t = copy.copy(src) / copy.deepcopy(src) [+ t.a = ...]; return t   (everything, minus what is overwritten)
+      F3  return SimpleNamespace(a=src.a, ...) / <namedtuple>(a=src.a, ...) / dict(a=...)   (the named attributes)
+      F4  t = object.__new__(type(src)); for name in ("a", "b"): setattr(t, name, ...); return t
+    Returns a StandIn or None."""
+    srcname = g.self_name if g.self_name else (g.posparams[0] if g.posparams else None)
+    if srcname is None:
         return None
-    cn = g.cls.name
+    rets = [r for r in walk_no_nested(g.node) if isinstance(r, ast.Return) and r.value is not None]
+    if not rets:
+        return None
+    cn = g.cls.name if g.cls is not None else None
+
+    def reads_src_attr(v, attr=None):
+        return any(isinstance(x, ast.Attribute) and isinstance(x.value, ast.Name) and x.value.id == srcname and (attr is None or x.attr.lstrip("_") == attr.lstrip("_")) for x in ast.walk(v))
+    # F3: every return is a keyword-only constructor of a namespace-like object
+    if all(isinstance(r.value, ast.Call) and not r.value.args and r.value.keywords and all(k.arg for k in r.value.keywords) for r in rets):
+        c0 = rets[0].value
+        fn = src(c0.func).split(".")[-1]
+        is_nt = False
+        if isinstance(c0.func, ast.Name):
+            for st in g.module.tree.body if hasattr(g.module, "tree") else []:
+                if isinstance(st, ast.Assign) and any(isinstance(t_, ast.Name) and t_.id == c0.func.id for t_ in st.targets) and isinstance(st.value, ast.Call) and src(st.value.func).split(".")[-1] in ("namedtuple", "make_dataclass", "NamedTuple"):
+                    is_nt = True
+        if (fn in _NS_CTORS or is_nt) and any(reads_src_attr(k.value) for k in c0.keywords):
+            return StandIn("F3", srcname, carried={k.arg for k in c0.keywords})
     for st, t, v, k in stores(g):
-        if isinstance(t, ast.Name) and isinstance(v, ast.Call) and ((isinstance(v.func, ast.Name) and v.func.id in (cn, "cls")) or (isinstance(v.func, ast.Attribute) and v.func.attr == "__class__") or src(v.func) in (f"type({g.self_name})",)):
-            rets = [r for r in walk_no_nested(g.node) if isinstance(r, ast.Return) and r.value is not None]
-            if rets and all(isinstance(r.value, ast.Name) and r.value.id == t.id for r in rets):
-                return t.id, v
+        if not (isinstance(t, ast.Name) and isinstance(v, ast.Call)):
+            continue
+        if not all(isinstance(r.value, ast.Name) and r.value.id == t.id for r in rets):
+            continue
+        fn = src(v.func)
+        over = {}
+        for st2, t2, v2, k2 in stores(g):
+            if isinstance(t2, ast.Attribute) and isinstance(t2.value, ast.Name) and t2.value.id == t.id:
+                over[t2.attr] = v2
+        if fn in ("copy.copy", "copy.deepcopy", "copy", "deepcopy") and v.args and isinstance(v.args[0], ast.Name) and v.args[0].id == srcname:
+            dropped = {a for a, v2 in over.items() if v2 is None or not reads_src_attr(v2, a)}
+            return StandIn("F2", srcname, carried=None, dropped=dropped, local=t.id)
+        if cn is not None and ((isinstance(v.func, ast.Name) and v.func.id in (cn, "cls")) or (isinstance(v.func, ast.Attribute) and v.func.attr == "__class__") or fn == f"type({srcname})"):
+            return StandIn("F1", srcname, carried=set(over), ctor=v, local=t.id)
+        if fn in ("object.__new__",) or (isinstance(v.func, ast.Attribute) and v.func.attr == "__new__"):
+            carried = set(over)
+            for n in walk_no_nested(g.node):
+                if isinstance(n, ast.For) and isinstance(n.iter, (ast.Tuple, ast.List)) and all(isinstance(x, ast.Constant) and isinstance(x.value, str) for x in n.iter.elts):
+                    if any(isinstance(c, ast.Call) and isinstance(c.func, ast.Name) and c.func.id == "setattr" and c.args and isinstance(c.args[0], ast.Name) and c.args[0].id == t.id for c in ast.walk(n)):
+                        carried |= {x.value for x in n.iter.elts}
+            for c in walk_no_nested(g.node):
+                if isinstance(c, ast.Call) and isinstance(c.func, ast.Name) and c.func.id == "setattr" and len(c.args) >= 2 and isinstance(c.args[0], ast.Name) and c.args[0].id == t.id and isinstance(c.args[1], ast.Constant):
+                    carried.add(c.args[1].value)
+            return StandIn("F4", srcname, carried=carried, local=t.id)
     return None
 
 
@@ -963,6 +1017,12 @@ def _attrs_read_from(P, k, prm, depth=0, seen=None):
                     if t_[0] == "repo" and t_[1].self_name:
                         out |= _attrs_read_from(P, t_[1], t_[1].self_name, depth + 1, seen)
                 continue
+            # a derived property (no attribute of its own): what its getter reads
+            pr_ = P.lookup_prop(k.cls, n.attr) if (k.cls is not None and prm == k.self_name) else None
+            if pr_ and "get" in pr_ and pr_["get"].self_name:
+                out |= _attrs_read_from(P, pr_["get"], pr_["get"].self_name, depth + 1, seen)
+                if "set" not in pr_:
+                    continue
             out.add(n.attr)
         if isinstance(n, ast.Call):
             kind, fexpr, args, kws = P.peel_call(n, k)
@@ -977,10 +1037,41 @@ def _attrs_read_from(P, k, prm, depth=0, seen=None):
     return out
 
 
+def _standin_of(P, f, du, e, st):
+    """Resolve an expression to (builder function, StandIn) when it is (a name bound to) the result of a stand-in builder called
+    on the estimator - `self._copy()`, `_snapshot(self)`, possibly wrapped in dask.delayed / persist."""
+    hops = 0
+    while hops < 5:
+        if isinstance(e, ast.Name) and e.id != f.self_name:
+            rd = du.reaching(st, e.id)
+            vals = [d for d in rd if d.how == "assign" and d.value is not None and not (isinstance(d.value, ast.Constant) and d.value.value is None)]
+            if len(vals) >= 1 and all(src(d.value) == src(vals[0].value) for d in vals):
+                e, st, hops = vals[0].value, vals[0].stmt, hops + 1
+                continue
+        if isinstance(e, ast.Call) and src(e.func).split(".")[-1] in ("delayed", "persist", "scatter") and e.args:
+            e, hops = e.args[0], hops + 1
+            continue
+        break
+    if not isinstance(e, ast.Call):
+        return None
+    on_self = isinstance(e.func, ast.Attribute) and isinstance(e.func.value, ast.Name) and e.func.value.id == f.self_name
+    with_self = any(isinstance(a, ast.Name) and a.id == f.self_name for a in e.args) if f.self_name else False
+    if not (on_self or with_self):
+        return None
+    for t_ in P.resolve_callee(e.func, f):
+        if t_[0] != "repo":
+            continue
+        sb = standin_builder(P, t_[1])
+        if sb is not None:
+            return t_[1], sb
+    return None
+
+
 def check_standins(P, R, key, kernels=("e_step", "m_step"), rule="COPY.complete"):
-    """When the kernels are given a stand-in for the estimator (a snapshot / worker copy built by a method of the class) instead of
-    the estimator itself, the stand-in carries every attribute the kernels read: one that is left at the constructor's default
-    (a configured floor, a ratio, a flag) makes the arm that uses the stand-in train with another configuration."""
+    """When the kernels are given a stand-in for the estimator (a snapshot / worker copy / frozen view built by a helper) instead
+    of the estimator itself - as an argument, or as the receiver of the bound method that is the task -, the stand-in carries every
+    attribute the kernels read: one that is left out or at the constructor's default (a configured floor, a ratio, a flag) makes
+    the arm that uses the stand-in compute with another configuration."""
     f, key = _site(P, key)
     du = get_defuse(f, P)
     n = 0
@@ -988,63 +1079,67 @@ def check_standins(P, R, key, kernels=("e_step", "m_step"), rule="COPY.complete"
         if not isinstance(c, ast.Call):
             continue
         kind, fexpr, args, kws = P.peel_call(c, f)
-        if src(fexpr).split(".")[-1] not in kernels:
-            continue
+        cst = du.stmt_of(c)
+        cands = []  # (kernel function, parameter that receives the stand-in, builder, StandIn, text)
         tg = [t_[1] for t_ in P.resolve_callee(fexpr, f) if t_[0] == "repo"]
-        if not tg:
-            continue
-        b = P.bind_args(tg[0], args, kws)
-        for prm, a in b.items():
-            # resolve the argument to a call of a method of self
-            e, hops = a, 0
-            while hops < 4:
-                if isinstance(e, ast.Name) and e.id != f.self_name:
-                    rd = du.reaching(du.stmt_of(c), e.id)
-                    if len(rd) == 1 and rd[0].how == "assign" and rd[0].value is not None:
-                        e, hops = rd[0].value, hops + 1
-                        continue
-                if isinstance(e, ast.Call) and src(e.func).split(".")[-1] in ("delayed", "persist", "scatter") and e.args:
-                    e, hops = e.args[0], hops + 1
-                    continue
-                break
-            if not (isinstance(e, ast.Call) and isinstance(e.func, ast.Attribute) and isinstance(e.func.value, ast.Name) and e.func.value.id == f.self_name):
-                continue
-            for t_ in P.resolve_callee(e.func, f):
-                if t_[0] != "repo":
-                    continue
-                g = t_[1]
-                sb = standin_builder(P, g)
-                if sb is None:
-                    continue
-                local, ctor = sb
-                n += 1
-                ci = g.cls
-                init = P.lookup_method(ci, "__init__")
-                carried = set()
-                passed = {k_.arg for k_ in ctor.keywords if k_.arg} | set(list(init.posparams[1:])[:len(ctor.args)]) if init is not None else set()
-                if init is not None:
-                    idu = get_defuse(init, P)
-                    from ..dataflow import cone as _cone
-                    for st2, t2, v2, k2 in stores(init):
-                        if isinstance(t2, ast.Attribute) and isinstance(t2.value, ast.Name) and t2.value.id == init.self_name and v2 is not None:
-                            cn_ = _cone(idu, v2, idu.stmt_of(st2), interproc=False)
-                            ps = {p_ for p_ in cn_.params if p_ != init.self_name}
-                            if ps and ps <= passed:
-                                carried.add(t2.attr)
-                for st2, t2, v2, k2 in stores(g):
-                    if isinstance(t2, ast.Attribute) and isinstance(t2.value, ast.Name) and t2.value.id == local:
-                        carried.add(t2.attr)
-                carried |= {"_" + x for x in carried} | {x.lstrip("_") for x in carried}
-                need = _attrs_read_from(P, tg[0], prm)
-                # only data attributes of the class (set in __init__ or by property setters), not methods
-                known = set()
-                for m_ in P.mro(ci):
-                    for fn_ in m_.methods.values():
-                        for st3, t3, v3, k3 in stores(fn_):
-                            if isinstance(t3, ast.Attribute) and isinstance(t3.value, ast.Name) and t3.value.id == fn_.self_name:
-                                known.add(t3.attr)
+        if isinstance(fexpr, ast.Attribute) and isinstance(fexpr.value, ast.Name) and fexpr.value.id != f.self_name:
+            # a bound method of a stand-in as the task: view.kernel(...)
+            got = _standin_of(P, f, du, fexpr.value, cst)
+            if got is not None:
+                bf, sb = got
+                cls_ = f.cls
+                m = P.lookup_method(cls_, fexpr.attr) if cls_ is not None else None
+                if m is not None and m.self_name:
+                    cands.append((m, m.self_name, bf, sb, src(fexpr)))
+        if tg and (src(fexpr).split(".")[-1] in kernels or True):
+            b = P.bind_args(tg[0], args, kws)
+            for prm, a in b.items():
+                got = _standin_of(P, f, du, a, cst)
+                if got is not None:
+                    cands.append((tg[0], prm, got[0], got[1], f"{prm}={src(a)[:30]}"))
+        for kf, prm, bf, sb, txt in cands:
+            n += 1
+            need = _attrs_read_from(P, kf, prm)
+            # only data attributes of the class (set in __init__ or by property setters), not methods
+            ci = bf.cls if bf.cls is not None else f.cls
+            known = set()
+            for m_ in (P.mro(ci) if ci is not None else []):
+                fns_ = list(m_.methods.values()) + [fx_ for pr_ in m_.props.values() for fx_ in pr_.values()]
+                for fn_ in fns_:
+                    for st3, t3, v3, k3 in stores(fn_):
+                        if isinstance(t3, ast.Attribute) and isinstance(t3.value, ast.Name) and t3.value.id == fn_.self_name:
+                            known.add(t3.attr)
+            norm = lambda x: x.lstrip("_")
+            need = {norm(x) for x in need}
+            known = {norm(x) for x in known}
+            sb_dropped = {norm(x) for x in sb.dropped}
+            if sb.kind == "F2":
+                missing = sorted(x for x in need & known if x in sb_dropped)
+            else:
+                carried = set(sb.carried or ())
+                if sb.kind == "F1" and ci is not None:
+                    init = P.lookup_method(ci, "__init__")
+                    if init is not None:
+                        ctor = sb.ctor
+                        passed = {k_.arg for k_ in ctor.keywords if k_.arg} | set(list(init.posparams[1:])[:len(ctor.args)])
+                        idu = get_defuse(init, P)
+                        from ..dataflow import cone as _cone
+                        for st2, t2, v2, k2 in stores(init):
+                            if isinstance(t2, ast.Attribute) and isinstance(t2.value, ast.Name) and t2.value.id == init.self_name and v2 is not None:
+                                cn_ = _cone(idu, v2, idu.stmt_of(st2), interproc=False)
+                                ps = {p_ for p_ in cn_.params if p_ != init.self_name}
+                                if ps and ps <= passed:
+                                    carried.add(t2.attr)
+                # a store through a property setter also fills what the setter derives (variances -> g_norms, weights -> log_weights)
+                for nm_ in (list(carried) if sb.kind != "F3" else []):  # a namespace / namedtuple runs no setter
+                    pr_ = P.lookup_prop(ci, nm_) if ci is not None else None
+                    if pr_ and "set" in pr_:
+                        for st4, t4, v4, k4 in stores(pr_["set"]):
+                            if isinstance(t4, ast.Attribute) and isinstance(t4.value, ast.Name) and t4.value.id == pr_["set"].self_name:
+                                carried.add(t4.attr)
+                carried = {norm(x) for x in carried}
                 missing = sorted(x for x in need & known if x not in carried)
-                R.check(not missing, rule, key, f"{tg[0].qualname}({prm}={src(a)[:30]}) <- {g.qualname}", f"the stand-in carries the {len(need & known)} attributes the kernel reads", f"the stand-in built by {g.qualname} does not carry {missing}, which {tg[0].qualname} reads from its `{prm}`: they stay at the constructor's defaults, so this arm does not train with the estimator's configuration", c.lineno)
+            R.check(not missing, rule, key, f"{kf.qualname}({txt}) <- {bf.qualname}", f"the stand-in carries the {len(need & known)} attributes the kernel reads", f"the stand-in built by {bf.qualname} does not carry {missing}, which {kf.qualname} reads from its `{prm}`: they are missing or stay at the constructor's defaults, so this arm does not compute with the estimator's configuration", c.lineno)
     return n
 
 
@@ -1064,6 +1159,8 @@ def check_reduction_siblings(P, R, modules, rule="LOGDOM.combine"):
                 continue
             fns = {}
             for role in ("combine", "aggregate"):
+                while isinstance(kw[role], ast.Call) and src(kw[role].func).split(".")[-1] == "partial" and kw[role].args:
+                    kw[role] = kw[role].args[0]
                 tg = [t_[1] for t_ in P.resolve_callee(kw[role], f) if t_[0] == "repo"] if isinstance(kw[role], (ast.Name, ast.Attribute)) else []
                 fns[role] = tg[0] if tg else None
             if fns["combine"] is None or fns["aggregate"] is None:
